@@ -917,14 +917,23 @@ def rule_c18_r1_order(model: Model) -> RuleResult:
     for lm in LANDMARKS:
         if lm not in order:
             r.fail(MK, f"landmark {lm} missing", func.loc(), f"the dispatch no longer consults '{lm}' for an ordinary class")
-    expected = [lm for lm in LANDMARKS if lm in order]
-    if order == expected:
+    # documented precedence: the first five landmarks in this order, and all of them before every structural arm; the order
+    # of the structural arms among themselves is decided per kind by C01-R1 (first admitting arm), not here
+    head = LANDMARKS[:5]
+    structural = LANDMARKS[5:]
+    pos = {lm: i for i, lm in enumerate(order)}
+    bad = None
+    for a, b in zip(head, head[1:]):
+        if a in pos and b in pos and pos[a] > pos[b]:
+            bad = (b, a)
+    for hd in head:
+        for st in structural:
+            if hd in pos and st in pos and pos[st] < pos[hd] and bad is None:
+                bad = (st, hd)
+    if bad is None:
         r.ok(len(order))
     else:
-        for i, (a, b) in enumerate(zip(order, expected)):
-            if a != b:
-                node = seen[i][1]
-                r.fail(MK, f"order {' < '.join(order)}", func.loc(node.ast),
-                       f"'{a}' is consulted where '{b}' is documented to come first; documented precedence: {' < '.join(LANDMARKS)}")
-                break
+        node = seen[pos[bad[0]]][1]
+        r.fail(MK, f"order {' < '.join(order)}", func.loc(node.ast),
+               f"'{bad[0]}' is consulted before '{bad[1]}'; documented precedence: {' < '.join(head)} < structural arms")
     return r
